@@ -239,6 +239,11 @@ func (f *Family[T]) Each(c *Ctx, workers int, gen func(emit func(T))) {
 	if to == 0 {
 		to = 45 * time.Minute
 	}
+	if !c.Thorough() && to > 10*time.Minute {
+		// quick tier: no single case of any family needs more than seconds; ten minutes of silence
+		// is a case that does not return (reported as such), not a slow machine
+		to = 10 * time.Minute
+	}
 	ch := make(chan T, 4*workers)
 	var wg sync.WaitGroup
 	type slot struct {
